@@ -39,6 +39,8 @@ def one(job):
 
 def main():
     pats = sorted(glob.glob('/tmp/ref/R*/_ref/*/patch.diff'))
+    if len(sys.argv) > 1:      # only the named refactorers, e.g. R02 R06
+        pats = [p for p in pats if p.split('/')[3] in sys.argv[1:]]
     os.makedirs('/tmp/rx', exist_ok=True)
     jobs, info = [], {}
     for pth in pats:
@@ -89,7 +91,10 @@ def main():
               'corr=%s' % corr, 'ties=%s' % info[rid]['ties_broken'], 'tool=%s' % sorted(tools))
         for p, d in alarms.items():
             print('    ', p, d.replace('\n', ' | ')[:300])
-    json.dump(out, open('/verif/seeded/REFACTORINGS.json', 'w'), indent=1, sort_keys=True)
+    dst = '/verif/seeded/REFACTORINGS.json'
+    if os.path.exists(dst):
+        out = dict(json.load(open(dst)), **out)
+    json.dump(out, open(dst, 'w'), indent=1, sort_keys=True)
     shutil.rmtree('/tmp/rx', ignore_errors=True)
 
 
